@@ -32,7 +32,9 @@ LEVEL_NOTE = 'trusted: models/rp66_ref.py; bounds as stated'
 
 CODES = [19, 2, 5, 6, 7, 12, 13, 14, 15, 16, 17, 18, 20, 21, 22, 23, 24, 26, 27]
 VALUES = {
-    2: [1.5, -153.0], 5: [b'\x42\x99\x00\x00', b'\xc2\x99\x00\x00'], 6: [b'\x0c\x44\x00\x80', b'\x0c\xc4\x00\x80'],
+    2: [1.5, -153.0], 5: [b'\x42\x99\x00\x00', b'\xc1\x10\x00\x00', b'\xc2\x99\x00\x00', b'\x40\x40\x00\x00'],   # 153, -1 (odd exponent), -153, 0.25
+     6: [b'\x0c\x44\x00\x80', b'\x80\xc0\x00\x00', b'\x0c\xc4\x00\x80', b'\x80\x3f\x00\x00'],   # 153, -1 (odd exponent), -153, 0.25
+    
     7: [0.1, -1e300], 12: [-128, 127], 13: [-32768, 32767], 14: [-2 ** 31, 2 ** 31 - 1], 15: [0, 255], 16: [0, 65535],
     17: [0, 2 ** 32 - 1], 18: [127, 16384], 19: [b'', b'Ab 1'], 20: [b'hello world', b'x' * 200],
     21: [(1987, 0, 4, 19, 21, 20, 15, 620), (2021, 2, 12, 31, 23, 59, 59, 999)], 22: [0, 300],
@@ -410,6 +412,14 @@ def extra_sets():
          'objects': [{'name': (7, 0, b'SECOND_ORIGIN'), 'comps': [{'values': [b'HOLE 2']}, {'values': [42]}]}]},
         {'type': b'WELL-REFERENCE', 'template': [{'label': b'PERMANENT-DATUM', 'code': 20}, {'label': b'ABOVE-PERMANENT-DATUM', 'code': 2, 'units': b'm'}],
          'objects': [{'name': (2, 0, b'WR'), 'comps': [{'values': [b'MSL']}, {'values': [12.5]}]}]},
+        # the sets that define frames, and PATH which shares its logical record type (4) with FRAME
+        {'type': b'CHANNEL', 'name': b'chs', 'lrtype': 3, 'template': [{'label': b'LONG-NAME', 'code': 20}, {'label': b'REPRESENTATION-CODE', 'code': 15},
+                                                                     {'label': b'UNITS', 'code': 27}, {'label': b'DIMENSION', 'code': 18}],
+         'objects': [{'name': (1, 0, b'DEPT'), 'comps': [{'values': [b'depth']}, {'values': [7]}, {'values': [b'm']}, {'values': [1]}]}]},
+        {'type': b'FRAME', 'name': b'frs', 'lrtype': 4, 'template': [{'label': b'DESCRIPTION', 'code': 20}, {'label': b'CHANNELS', 'code': 23}],
+         'objects': [{'name': (1, 0, b'FT'), 'comps': [{'values': [b'frame type']}, {'values': [(1, 0, b'DEPT')]}]}]},
+        {'type': b'PATH', 'name': b'pth', 'lrtype': 4, 'template': [{'label': b'FRAME-TYPE', 'code': 23}, {'label': b'WELL-REFERENCE-POINT', 'code': 23}],
+         'objects': [{'name': (1, 0, b'P1'), 'comps': [{'values': [(1, 0, b'FT')]}, {'values': [(2, 0, b'WR')]}]}]},
     ]
 
 
@@ -418,7 +428,7 @@ def gen_F(tier):
     further = [[]] + [[e] for e in ex] + [[a, b] for a in ex for b in ex if a is not b]
     for nfiles in (1, 2):
         for f0 in further:
-            for f1 in (further if nfiles == 2 else [None]):
+            for f1 in (further[:9] + further[-4:] if nfiles == 2 else [None]):
                 base = [[FILE_HEADER, ORIGIN] + f0]
                 if f1 is not None:
                     base.append([FILE_HEADER, ORIGIN] + f1)
